@@ -267,6 +267,7 @@ package lua
 //@ ensures  "arguments-kept": !meta && ls.currentFrame.Fn.IsG ==> (forall k int :: cf.LocalBase <= k && k < cf.LocalBase + cf.NArgs ==> ls.reg.array[k] == old(ls.reg.array[k]))
 //@ ensures  ls.currentFrame.Fn == cf.Fn && ls.currentFrame.Fn != nil && ls.currentFrame.Parent == cf.Parent && ls.currentFrame.Base == cf.Base && ls.currentFrame.ReturnBase == cf.ReturnBase && ls.currentFrame.NRet == cf.NRet && ls.currentFrame.NArgs == cf.NArgs + ite(meta, 1, 0) && ls.currentFrame.Pc == cf.Pc && ls.currentFrame.TailCall == cf.TailCall && ls.currentFrame.Idx == old($sp(ls.stack))
 //@ ensures  forall i int :: 0 <= i && i < old($sp(ls.stack)) ==> $frame(ls.stack, i) == old($frame(ls.stack, i)) && unchanged($frame(ls.stack, i))
+//@ ensures  "new-frame-is-a-different-object": forall i int :: 0 <= i && i < old($sp(ls.stack)) ==> $frame(ls.stack, i) != ls.currentFrame
 //@ modifies ghost(ls.stack), type callFrame.*, ls.currentFrame, ls.reg.array, ls.reg.top, ls.reg.array[*]
 
 // Host functions: a call through an LGFunction value runs arbitrary Go code. Assumed (call discipline + "a host
@@ -278,7 +279,21 @@ package lua
 //@ ensures  arg0.reg == old(arg0.reg) && arg0.reg != nil && Inv_reg(arg0.reg) && arg0.currentFrame == old(arg0.currentFrame) && unchanged(arg0.currentFrame) && arg0.stack == old(arg0.stack) && $inv(arg0.stack) && $sp(arg0.stack) == old($sp(arg0.stack)) && arg0.G == old(arg0.G) && arg0.G != nil
 //@ ensures  forall i int :: 0 <= i && i < $sp(arg0.stack) ==> $frame(arg0.stack, i) == old($frame(arg0.stack, i)) && unchanged($frame(arg0.stack, i))
 //@ ensures  result <= arg0.reg.top - arg0.currentFrame.LocalBase && arg0.currentFrame.LocalBase <= arg0.reg.top
+// a coroutine and its resumer are different states with their own registries (representation of NewThread, assumed)
+//@ ensures  arg0.Parent != nil ==> Inv_api(arg0.Parent) && arg0.Parent != arg0 && arg0.Parent.reg != arg0.reg && arrid(arg0.Parent.reg.array) != arrid(arg0.reg.array) && arg0.Parent.currentFrame != arg0.currentFrame && (forall i int :: 0 <= i && i < $sp(arg0.stack) ==> arg0.Parent.currentFrame != $frame(arg0.stack, i))
 //@ modifies everything
+
+// RemoveCallerFrame (a host function called in tail position has returned): the caller's frame object takes over the
+// header of the top frame - keeping its own Parent and index - and the stack is one frame shorter
+//@ func (*LState).RemoveCallerFrame [C02 C06 C10]
+//@ requires ls != nil && ls.stack != nil && $inv(ls.stack) && $sp(ls.stack) >= 2 && $frame(ls.stack, $sp(ls.stack) - 2) != $frame(ls.stack, $sp(ls.stack) - 1) && $frame(ls.stack, $sp(ls.stack) - 2) != nil && $frame(ls.stack, $sp(ls.stack) - 1) != nil
+//@ noraise
+//@ ensures  $inv(ls.stack) && $sp(ls.stack) == old($sp(ls.stack)) - 1 && result == old($frame(ls.stack, $sp(ls.stack) - 2)) && result == $frame(ls.stack, $sp(ls.stack) - 1) && result != nil
+//@ ensures  "header-of-the-callee": result.Fn == old($frame(ls.stack, $sp(ls.stack) - 1).Fn) && result.Pc == old($frame(ls.stack, $sp(ls.stack) - 1).Pc) && result.Base == old($frame(ls.stack, $sp(ls.stack) - 1).Base) && result.LocalBase == old($frame(ls.stack, $sp(ls.stack) - 1).LocalBase) && result.ReturnBase == old($frame(ls.stack, $sp(ls.stack) - 1).ReturnBase) && result.NArgs == old($frame(ls.stack, $sp(ls.stack) - 1).NArgs) && result.NRet == old($frame(ls.stack, $sp(ls.stack) - 1).NRet) && result.TailCall == old($frame(ls.stack, $sp(ls.stack) - 1).TailCall)
+//@ ensures  "no-other-frame-object-written": forall f *callFrame :: f != nil && f != result ==> unchanged(f)
+//@ ensures  "own-parent-and-index": result.Parent == old($frame(ls.stack, $sp(ls.stack) - 2).Parent) && result.Idx == old($sp(ls.stack)) - 2
+//@ ensures  "frames-below-kept": forall i int :: 0 <= i && i < $sp(ls.stack) - 1 ==> $frame(ls.stack, i) == old($frame(ls.stack, i)) && ($frame(ls.stack, i) != result ==> unchanged($frame(ls.stack, i)))
+//@ modifies ghost(ls.stack), type callFrame.*
 
 // callGFunction: the count a host function returns selects exactly its top-most values as its results, moved to
 // ReturnBase and padded/truncated to NRet (the BLOCK-POST of the inlined CopyRange, relative to the state right after
@@ -286,10 +301,17 @@ package lua
 //@ func callGFunction [C02 C06 C10]
 //@ requires L != nil && L.reg != nil && Inv_reg(L.reg) && L.stack != nil && $inv(L.stack) && $sp(L.stack) >= 1 && L.G != nil
 //@ requires L.currentFrame != nil && L.currentFrame == $frame(L.stack, $sp(L.stack) - 1) && L.currentFrame.Fn != nil && L.currentFrame.Fn.GFunction != nil
-//@ requires 0 <= L.currentFrame.ReturnBase && L.currentFrame.ReturnBase <= L.currentFrame.LocalBase && L.currentFrame.LocalBase <= L.reg.top && L.currentFrame.NRet >= -1
+//@ requires 0 <= L.currentFrame.ReturnBase && L.currentFrame.ReturnBase <= L.currentFrame.LocalBase && L.currentFrame.LocalBase <= L.reg.top && L.currentFrame.NRet >= -1 && 0 <= L.currentFrame.Base && L.currentFrame.Base <= L.currentFrame.LocalBase
 //@ requires forall i int :: 0 <= i && i < $sp(L.stack) ==> $frame(L.stack, i) != nil && $frame(L.stack, i).Fn != nil
-//@ cut@"L.currentFrame = L.RemoveCallerFrame()" the tail-call frame removal is covered by RemoveCallerFrame's own contract, not here
-//@ cut@"switchToParentThread(L, L.GetTop(), false, false)" the yield path belongs to C06
+// a negative count is a yield: control goes to the resumer (switchToParentThread's contract) and ONLY the host frame is
+// popped - also in tail position, where the calling frame stays until the coroutine is resumed and the values are
+// then found at R(A) (= the host frame's Base) for the OP_RETURN that follows
+// in tail position there is a calling frame below, a different object (callFrameStack.Push: "new-frame-is-a-different-object")
+//@ requires tailcall ==> $sp(L.stack) >= 2 && $frame(L.stack, $sp(L.stack) - 2) != $frame(L.stack, $sp(L.stack) - 1)
+//@ assert@"if wantret == MultRet" frame == old(L.currentFrame) && frame.NRet == old(L.currentFrame.NRet) && frame.ReturnBase == old(L.currentFrame.ReturnBase) && Inv_reg(L.reg) && L.reg == old(L.reg)
+//@ let@"if gfnret < 0" g = gfnret
+//@ ensures  "yield-pops-only-the-host-frame": g < 0 ==> result && $sp(L.stack) == old($sp(L.stack)) - 1 && top(L) == ite(tailcall, old(L.currentFrame.Base), old(L.currentFrame.ReturnBase))
+//@ raises when true
 //@ ensures  !tailcall && !result ==> $sp(L.stack) == old($sp(L.stack)) - 1 && Inv_reg(L.reg) && L.reg == old(L.reg)
 //@ ensures  !tailcall && !result ==> (L.currentFrame == nil <==> $sp(L.stack) == 0)
 //@ ensures  L.currentFrame != nil ==> L.currentFrame.Fn != nil
@@ -340,6 +362,8 @@ package lua
 //@ requires opB(inst) != 0 ==> lb(L) + opA(inst) + opB(inst) <= top(L)
 //@ requires opB(inst) == 0 ==> lb(L) + opA(inst) + 1 <= top(L)
 //@ requires 0 <= L.currentFrame.ReturnBase && L.currentFrame.ReturnBase <= L.currentFrame.Base && L.currentFrame.Base < lb(L) && L.currentFrame.NRet >= -1
+// the running activation is the top frame of the call stack
+//@ requires $sp(L.stack) >= 1 && L.currentFrame == $frame(L.stack, $sp(L.stack) - 1)
 // a callable object reached through __call becomes the first argument of its handler, also in tail position
 //@ assert@"if callGFunction(L, true) {" meta ==> L.reg.array[RA + 1] == lv
 //@ modifies everything
@@ -376,6 +400,7 @@ package lua
 //@ ensures  "count": top(old(L.Parent)) == old(top(L.Parent) + ite(L.wrapped, 0, 1) + xm(L, nargs))
 //@ ensures  "values": forall k int :: old(top(L.Parent) + ite(L.wrapped, 0, 1)) <= k && k < top(old(L.Parent)) ==> old(L.Parent).reg.array[k] == old(L.reg.array[top(L) - xm(L, nargs) + k - top(L.Parent) - ite(L.wrapped, 0, 1)])
 //@ ensures  "frame-popped": $sp(L.stack) == old($sp(L.stack)) - 1 && top(L) == old(top(L) - xm(L, nargs) - (L.currentFrame.LocalBase - L.currentFrame.ReturnBase))
+//@ ensures  "frames-below-kept": L.stack == old(L.stack) && $inv(L.stack) && (forall i int :: 0 <= i && i < $sp(L.stack) ==> $frame(L.stack, i) == old($frame(L.stack, i)) && unchanged($frame(L.stack, i))) && L.currentFrame == ite($sp(L.stack) == 0, nil, $frame(L.stack, $sp(L.stack) - 1))
 //@ modifies everything
 
 // OP_RETURN: thin contract (no implicit Go panic; the inlined closeUpvalues and copyReturnValues/CopyRange/FillNil
@@ -465,14 +490,32 @@ package lua
 //@ modifies everything
 //@ loop 3 invariant Inv_api(ls) && ls.G != nil && (ls.currentFrame != nil ==> ls.currentFrame.Fn != nil) && base(ls) == b0 && top(ls) >= t0 + 1 && idx >= top + 2 && top == t0 - b0 && offset(ret) == 0 && th.stack != nil
 
+// A suspended coroutine whose current frame stopped right after an OP_CALL with a fixed result count C-1 is waiting
+// for exactly that many values ("the values given to resume arrive as the results of the pending yield, in order and
+// number"): finishYield truncates or nil-pads the values a resume has just pushed; an open call (C == 0), a tail call
+// or a host frame takes them all.
+//@ define frameOK(ls *LState) bool = ls.currentFrame != nil ==> ls.currentFrame.Fn != nil && (!ls.currentFrame.Fn.IsG ==> ls.currentFrame.Fn.Proto != nil && 0 <= ls.currentFrame.Pc && ls.currentFrame.Pc <= len(code(ls)) && offset(code(ls)) == 0)
+//@ define pendingFixedCall(ls *LState) bool = ls.currentFrame != nil && !ls.currentFrame.Fn.IsG && ls.currentFrame.Pc >= 1 && opOp(code(ls)[pc(ls)-1]) == OP_CALL && opC(code(ls)[pc(ls)-1]) != 0
+//@ define yieldWant(ls *LState) int = opC(code(ls)[pc(ls)-1]) - 1
+//@ func (*LState).finishYield [C06]
+//@ requires ls != nil && ls.reg != nil && Inv_reg(ls.reg) && frameOK(ls) && 0 <= nvalues && nvalues <= top(ls)
+//@ raises when pendingFixedCall(ls) && overflow(ls.reg, top(ls) - nvalues + yieldWant(ls))
+//@ ensures  Inv_reg(ls.reg) && ls.reg == old(ls.reg) && ls.currentFrame == old(ls.currentFrame) && arrSameOrFresh(ls.reg) && cap(ls.reg.array) >= old(cap(ls.reg.array))
+//@ ensures  "fixed-count-pads-or-truncates": old(pendingFixedCall(ls)) ==> top(ls) == old(top(ls) - nvalues + yieldWant(ls)) && (forall k int :: old(top(ls)) <= k && k < top(ls) ==> ls.reg.array[k] == LNil) && (forall k int :: 0 <= k && k < top(ls) && k < old(top(ls)) ==> ls.reg.array[k] == old(ls.reg.array[k]))
+//@ ensures  "open-call-takes-all": !old(pendingFixedCall(ls)) ==> top(ls) == old(top(ls)) && (forall k int :: 0 <= k && k < top(ls) ==> ls.reg.array[k] == old(ls.reg.array[k]))
+//@ modifies ls.reg.array, ls.reg.top, ls.reg.array[*]
+
 //@ func coResume [C06]
 //@ requires Inv_gfn(L) && isTh(arg(L, 1)) && th(arg(L, 1)) != nil && L.G.CurrentThread != nil && th(arg(L, 1)).G == L.G
 // the coroutine is a different state with its own registry (representation facts of NewThread, assumed)
-//@ requires Inv_api(th(arg(L, 1))) && (th(arg(L, 1)) != L ==> th(arg(L, 1)).reg != L.reg && arrid(th(arg(L, 1)).reg.array) != arrid(L.reg.array) && th(arg(L, 1)).currentFrame != L.currentFrame)
+//@ requires frameOK(th(arg(L, 1))) && Inv_api(th(arg(L, 1))) && (th(arg(L, 1)) != L ==> th(arg(L, 1)).reg != L.reg && arrid(th(arg(L, 1)).reg.array) != arrid(L.reg.array) && th(arg(L, 1)).currentFrame != L.currentFrame)
 //@ assert@"th.Parent = L" !th.Dead && L.G.CurrentThread != th && !ancestor(L.G.CurrentThread, th)
 //@ cut@"cf := th.stack.Last()" the FIRST resume of a coroutine (frame set-up through initCallFrame) is not verified here; its pieces are (XMoveTo, initCallFrame)
 // a legitimate resume makes the resumer the coroutine's Parent and the coroutine the current thread BEFORE it runs
 //@ assert@"threadRun(th)" th.Parent == L && L.G.CurrentThread == th
+// ... and the pending yield call of a coroutine that is resumed again finds exactly the number of results it asked for: the
+// values given to resume in order, then nil
+//@ assert@"threadRun(th)" th != L && old(pendingFixedCall(th(arg(L, 1)))) ==> top(th) == old(top(th(arg(L, 1))) + yieldWant(th(arg(L, 1)))) && (forall k int :: 0 <= k && k < old(yieldWant(th(arg(L, 1)))) ==> th.reg.array[old(top(th(arg(L, 1)))) + k] == ite(k < old(nargs(L)) - 1, old(L.reg.array[base(L) + 1 + k]), LNil))
 //@ ensures  "never-resumed": old(th(arg(L, 1)).Dead || L.G.CurrentThread == th(arg(L, 1)) || ancestor(L.G.CurrentThread, th(arg(L, 1)))) ==> ncalls() == old(ncalls()) && result == 2 && top(L) == old(top(L)) + 2 && pushed(L, 0) == LFalse && isStr(pushed(L, 1))
 //@ ensures  old(th(arg(L, 1)).Dead || L.G.CurrentThread == th(arg(L, 1)) || ancestor(L.G.CurrentThread, th(arg(L, 1)))) ==> L.G.CurrentThread == old(L.G.CurrentThread) && th(old(arg(L, 1))).Parent == old(th(arg(L, 1)).Parent)
 //@ raises when th(arg(L, 1)).wrapped || top(L) + 2 > cap(L.reg.array) || !(th(arg(L, 1)).Dead || L.G.CurrentThread == th(arg(L, 1)) || ancestor(L.G.CurrentThread, th(arg(L, 1))))
@@ -801,7 +844,7 @@ package lua
 // only for a Lua base frame. (The loop itself - dispatch through jumpTable, the select on ctx.Done() - is behind the cut:
 // select is outside the verified subset.)
 //@ func mainLoop [C12]
-//@ entry-assumes L != nil && L.reg != nil && Inv_reg(L.reg) && L.stack != nil && $inv(L.stack) && $sp(L.stack) >= 0 && L.G != nil && fnsValid() && (forall i int :: 0 <= i && i < $sp(L.stack) ==> $frame(L.stack, i) != nil && $frame(L.stack, i).Fn != nil && 0 <= $frame(L.stack, i).ReturnBase && $frame(L.stack, i).ReturnBase <= $frame(L.stack, i).LocalBase && $frame(L.stack, i).LocalBase <= L.reg.top && $frame(L.stack, i).NRet >= 0 - 1)
+//@ entry-assumes L != nil && L.reg != nil && Inv_reg(L.reg) && L.stack != nil && $inv(L.stack) && $sp(L.stack) >= 0 && L.G != nil && fnsValid() && (forall i int :: 0 <= i && i < $sp(L.stack) ==> $frame(L.stack, i) != nil && $frame(L.stack, i).Fn != nil && 0 <= $frame(L.stack, i).ReturnBase && $frame(L.stack, i).ReturnBase <= $frame(L.stack, i).LocalBase && $frame(L.stack, i).LocalBase <= L.reg.top && $frame(L.stack, i).NRet >= 0 - 1 && 0 <= $frame(L.stack, i).Base && $frame(L.stack, i).Base <= $frame(L.stack, i).LocalBase)
 //@ let@"if L.currentFrame.Fn.IsG {" baseIsGo = L.currentFrame.Fn.IsG
 //@ assert@"cf = L.currentFrame" !baseIsGo
 //@ cut@"cf = L.currentFrame" the dispatch loop (a call through the jumpTable array per instruction) is not verified as a loop; each handler is
@@ -809,7 +852,7 @@ package lua
 //@ modifies everything
 
 //@ func mainLoopWithContext [C12]
-//@ entry-assumes L != nil && L.reg != nil && Inv_reg(L.reg) && L.stack != nil && $inv(L.stack) && $sp(L.stack) >= 0 && L.G != nil && fnsValid() && (forall i int :: 0 <= i && i < $sp(L.stack) ==> $frame(L.stack, i) != nil && $frame(L.stack, i).Fn != nil && 0 <= $frame(L.stack, i).ReturnBase && $frame(L.stack, i).ReturnBase <= $frame(L.stack, i).LocalBase && $frame(L.stack, i).LocalBase <= L.reg.top && $frame(L.stack, i).NRet >= 0 - 1)
+//@ entry-assumes L != nil && L.reg != nil && Inv_reg(L.reg) && L.stack != nil && $inv(L.stack) && $sp(L.stack) >= 0 && L.G != nil && fnsValid() && (forall i int :: 0 <= i && i < $sp(L.stack) ==> $frame(L.stack, i) != nil && $frame(L.stack, i).Fn != nil && 0 <= $frame(L.stack, i).ReturnBase && $frame(L.stack, i).ReturnBase <= $frame(L.stack, i).LocalBase && $frame(L.stack, i).LocalBase <= L.reg.top && $frame(L.stack, i).NRet >= 0 - 1 && 0 <= $frame(L.stack, i).Base && $frame(L.stack, i).Base <= $frame(L.stack, i).LocalBase)
 //@ let@"if L.currentFrame.Fn.IsG {" baseIsGo = L.currentFrame.Fn.IsG
 //@ assert@"cf = L.currentFrame" !baseIsGo
 //@ cut@"cf = L.currentFrame" the dispatch loop with its select on ctx.Done() is outside the verified subset
